@@ -99,7 +99,38 @@ func Load(dir string, overlay map[string][]byte) (*Program, error) {
 		}
 		p.SSAPkgs[pkgs[i].PkgPath] = sp
 	}
-	for fn := range ssautil.AllFunctions(prog) {
+	all := ssautil.AllFunctions(prog)
+	// AllFunctions leaves out the methods of unexported types that no analysed code converts to an interface
+	// (engine.localEngine is only used as an api.RemoteEngine by callers outside the module): every method
+	// declared in the module is analysed.
+	var addFn func(fn *ssa.Function)
+	addFn = func(fn *ssa.Function) {
+		if fn == nil || all[fn] {
+			return
+		}
+		all[fn] = true
+		for _, af := range fn.AnonFuncs {
+			addFn(af)
+		}
+	}
+	for _, sp := range ssapkgs {
+		for _, m := range sp.Members {
+			t, ok := m.(*ssa.Type)
+			if !ok || types.IsInterface(t.Type()) {
+				continue
+			}
+			if n, isNamed := t.Type().(*types.Named); isNamed && n.TypeParams().Len() > 0 {
+				continue
+			}
+			for _, T := range []types.Type{t.Type(), types.NewPointer(t.Type())} {
+				mset := prog.MethodSets.MethodSet(T)
+				for i := 0; i < mset.Len(); i++ {
+					addFn(prog.MethodValue(mset.At(i)))
+				}
+			}
+		}
+	}
+	for fn := range all {
 		if fn.Pkg == nil || fn.Blocks == nil {
 			continue
 		}
